@@ -325,7 +325,7 @@ def _global_setters(ctx):
     return out
 
 
-def _events(ctx, f, setters, attr, depth=0, cond=False, seen=()):
+def _events(ctx, f, setters, attr, depth=0, cond=(), seen=()):
     """ordered events of one run through f: ('set', setter qual, arg expr, func, node, conditional),
     ('write', attr, func, node, conditional); calls to methods of the same class are followed"""
     out = []
@@ -372,17 +372,17 @@ def _events(ctx, f, setters, attr, depth=0, cond=False, seen=()):
                 if not (isinstance(k, ast.Constant) and k.value != attr):
                     out.append(("write", attr, f, st, cond))
             if isinstance(st, ast.If):
-                visit(st.body, True)
-                visit(st.orelse, True)
+                visit(st.body, tuple(cond) + (unparse(st.test),))
+                visit(st.orelse, tuple(cond) + (f"not ({unparse(st.test)})",))
             elif isinstance(st, (ast.For, ast.While)):
-                visit(st.body, True)
-                visit(st.orelse, True)
+                visit(st.body, tuple(cond) + ("<loop>",))
+                visit(st.orelse, tuple(cond) + ("<loop>",))
             elif isinstance(st, ast.With):
                 visit(st.body, cond)
             elif isinstance(st, ast.Try):
                 visit(st.body, cond)
                 for h in st.handlers:
-                    visit(h.body, True)
+                    visit(h.body, tuple(cond) + ("<except>",))
                 visit(st.orelse, cond)
                 visit(st.finalbody, cond)
 
@@ -390,8 +390,8 @@ def _events(ctx, f, setters, attr, depth=0, cond=False, seen=()):
     return out
 
 
-def r7(ctx, R):
-    R.rule("C15.R7", "a process-wide parse setting that pool workers receive as an explicit argument holds the same option value in the server process once initialisation is over (files opened later are parsed in-process)", floor=1, confirmed=1)
+def r7(ctx, R, rule="C15.R7"):
+    R.rule(rule, "a process-wide parse setting that pool workers receive as an explicit argument holds the same option value in the server process once initialisation is over (files opened later are parsed in-process)", floor=1, confirmed=1)
     f, sub, worker = pool_site(ctx)
     setters = _global_setters(ctx)
     sc = server_class(ctx)
@@ -423,18 +423,18 @@ def r7(ctx, R):
         sq = hit[0]
         a = c.args[setters[sq][1]] if len(c.args) > setters[sq][1] else None
         if not (isinstance(a, ast.Name) and a.id in wparams and isinstance(args_tuple, (ast.Tuple, ast.List)) and len(args_tuple.elts) > wparams.index(a.id)):
-            R.undecided("C15.R7", worker.short, key(worker, ctx.m.enclosing_stmt(c)), loc(worker, c), "argument of the setter is not a task argument")
+            R.undecided(rule, worker.short, key(worker, ctx.m.enclosing_stmt(c)), loc(worker, c), "argument of the setter is not a task argument")
             continue
         opt = args_tuple.elts[wparams.index(a.id)]
         if not (isinstance(opt, ast.Attribute) and unparse(opt.value) == "self"):
-            R.undecided("C15.R7", worker.short, key(worker, ctx.m.enclosing_stmt(c)), loc(f, opt), f"submitted value `{unparse(opt)}` is not a server option")
+            R.undecided(rule, worker.short, key(worker, ctx.m.enclosing_stmt(c)), loc(f, opt), f"submitted value `{unparse(opt)}` is not a server option")
             continue
         attr = opt.attr
         n += 1
         init = ctx.m.funcs.get(ctx.m.method(sc.qual, "__init__") or "")
         hs = dispatch_table(ctx).get("initialize") or set()
         if init is None or len(hs) != 1:
-            R.undecided("C15.R7", worker.short, f"{setters[sq][0]} <- self.{attr}", loc(worker, c), "constructor or initialize handler not identified")
+            R.undecided(rule, worker.short, f"{setters[sq][0]} <- self.{attr}", loc(worker, c), "constructor or initialize handler not identified")
             continue
         handler = ctx.m.funcs[next(iter(hs))]
         ev = _events(ctx, init, setters, attr) + _events(ctx, handler, setters, attr)
@@ -445,19 +445,21 @@ def r7(ctx, R):
         held_at = None
         prev_ret = {}  # local name bound to the setter's return value -> version held before that call
         undec = None
+        # what the global may hold when a conditional setter call is skipped: values it held before
+        # (a conditional call adds its value to the possibilities, an unconditional one replaces them)
+        base = {"<module default>"}
+        cond_vals = {}
+        maybe = set(base)
+        skipped = None  # (func, call, conditions) of the last conditional call that installs the current value
         for e in ev:
             if e[0] == "write":
                 version += 1
-                if e[4] and False:
-                    pass
                 continue
             _, _, arg, g, call, cond = e
             before = held
             st = ctx.m.enclosing_stmt(call)
             if isinstance(st, ast.Assign) and st.value is call and len(st.targets) == 1 and isinstance(st.targets[0], ast.Name):
                 prev_ret[(g.qual, st.targets[0].id)] = before
-            if cond:
-                undec = (g, call, "the setter is called conditionally")
             if isinstance(arg, ast.Attribute) and unparse(arg) == f"self.{attr}":
                 held = version
             elif isinstance(arg, ast.Name) and (g.qual, arg.id) in prev_ret:
@@ -467,20 +469,39 @@ def r7(ctx, R):
             else:
                 held = None
                 undec = (g, call, f"argument `{unparse(arg) if arg is not None else ''}` not derived")
+            if cond:
+                # calls under the same condition run together: the later one replaces the earlier one's value
+                cond_vals[tuple(cond)] = held
+                maybe = base | set(cond_vals.values())
+                skipped = (g, call, tuple(cond))
+            else:
+                base = {held}
+                cond_vals = {}
+                maybe = set(base)
+                skipped = None
             held_at = (g, call)
         kk = f"{setters[sq][0]} <- self.{attr}"
+        stale = [h for h in maybe if h != version]
         if held_at is None:
-            R.violation("C15.R7", handler.short, kk, loc(handler, handler.node), f"workers parse with self.{attr} (passed explicitly), but the server process never sets `{setters[sq][0]}`: files opened later are parsed with the module default")
+            R.violation(rule, handler.short, kk, loc(handler, handler.node), f"workers parse with self.{attr} (passed explicitly), but the server process never sets `{setters[sq][0]}`: files opened later are parsed with the module default")
+        elif held == version and stale and skipped is not None:
+            # the call that installs the current value can be skipped
+            conds = [c_ for c_ in skipped[2]]
+            if undec is None and not any(attr in c_ for c_ in conds) and not any(c_.startswith("<") for c_ in conds):
+                what = sorted(("the value self.%s had after %d of its %d writes" % (attr, h, version)) if isinstance(h, int) else ("the constant %r" % (h[1],) if isinstance(h, tuple) else str(h)) for h in stale if h is not None)
+                R.violation(rule, skipped[0].short, kk, loc(skipped[0], skipped[1]), f"the call that hands the current self.{attr} to `{setters[sq][0]}` only runs under `{' and '.join(conds)}`; otherwise the process-wide setting keeps {' / '.join(what) or 'an earlier value'} while workers receive the current option: with the option set in the configuration file, files indexed at start-up and files parsed later in the server process use different settings")
+            else:
+                R.undecided(rule, skipped[0].short, kk, loc(skipped[0], skipped[1]), "the setter is called conditionally")
         elif undec is not None and held != version:
-            R.undecided("C15.R7", undec[0].short, kk, loc(undec[0], undec[1]), undec[2])
+            R.undecided(rule, undec[0].short, kk, loc(undec[0], undec[1]), undec[2])
         elif held == version:
-            R.ok("C15.R7", held_at[0].short, kk, loc(held_at[0], held_at[1]), f"last setter call of initialisation passes self.{attr} after its last write ({version} writes: constructor, configuration file)")
+            R.ok(rule, held_at[0].short, kk, loc(held_at[0], held_at[1]), f"last setter call of initialisation passes self.{attr} after its last write ({version} writes: constructor, configuration file)")
         elif isinstance(held, tuple):
-            R.violation("C15.R7", held_at[0].short, kk, loc(held_at[0], held_at[1]), f"initialisation leaves `{setters[sq][0]}` at the constant {held[1]!r}; workers parse with self.{attr}: a file indexed at start-up and the same file opened later are parsed with different settings")
+            R.violation(rule, held_at[0].short, kk, loc(held_at[0], held_at[1]), f"initialisation leaves `{setters[sq][0]}` at the constant {held[1]!r}; workers parse with self.{attr}: a file indexed at start-up and the same file opened later are parsed with different settings")
         else:
-            R.violation("C15.R7", held_at[0].short, kk, loc(held_at[0], held_at[1]), f"after initialisation `{setters[sq][0]}` holds the value self.{attr} had before its last write (the configuration file is read later), while workers receive the current self.{attr}: with the option set in the configuration file, files indexed at start-up and files opened later are parsed with different settings")
+            R.violation(rule, held_at[0].short, kk, loc(held_at[0], held_at[1]), f"after initialisation `{setters[sq][0]}` holds the value self.{attr} had before its last write (the configuration file is read later), while workers receive the current self.{attr}: with the option set in the configuration file, files indexed at start-up and files opened later are parsed with different settings")
     if n == 0:
-        R.undecided("C15.R7", worker.short, "process-wide settings", loc(worker, worker.node), "the worker sets no process-wide setting from its arguments")
+        R.undecided(rule, worker.short, "process-wide settings", loc(worker, worker.node), "the worker sets no process-wide setting from its arguments")
 
 
 def run(ctx, R):
